@@ -19,6 +19,11 @@ Rule == /\ Ev.res = "Ok"
         /\ CASE Ev.op = "btpe2" -> LET a == BTab[Ev.case].r2[Ev.k] IN
                                    /\ Ev.accepted_at_zero /\ Ev.y = a.y
                                    /\ Near14(Ev.T, a.frac, 64 - 28)
+             \* regions 3 / 4 (exponential tails): after the anchor's first word the second words returning y form the interval
+             \* [exp(lambda (y - x_l)), min(exp(lambda (y + 1 - x_l)), f(y)/f(m) / ((u - p2) lambda))) (mirrored on the right): both ends to 2^-28
+             [] Ev.op = "btpet" -> LET a == BTab[Ev.case].rt[Ev.k] IN
+                                   /\ Ev.probe_ok
+                                   /\ Near14(Ev.lo, a.lo, 64 - 28) /\ Near14(Ev.hi, a.hi, 64 - 28)
              [] Ev.op = "btpe1" -> LET a == BTab[Ev.case].r1[Ev.k] IN
                                    /\ Ev.always_two_words /\ Len(Ev.cnts) = Len(a.js)
                                    /\ \A i \in 1..Len(a.js) : Near14(Ev.cnts[i], a.js[i].cnt, 64 - 44)
